@@ -36,6 +36,7 @@ func allInstances() []*Instance {
 	regC10(add, p)
 	regC16(add, p)
 	regC19(add, p)
+	regC03(add, p)
 	regC02(add, p)
 	regC11(add, p)
 	regC12(add, p)
@@ -440,6 +441,30 @@ func regC16(add addFn, p pFn) {
 	}
 	add(&Instance{Property: "C16", Name: "realm-lines-v2", Entry: "config.VH_C16_RealmLines", Params: p("values", 2), Reach: []string{"done"}, Bound: "2 kdc lines with values of 1..2 characters over {h,:,*}"})
 	add(&Instance{Property: "C16", Name: "realm-lines-v3", Entry: "config.VH_C16_RealmLines", Params: p("values", 3), Tier: "thorough", Reach: []string{"done"}, Bound: "3 kdc lines"})
+}
+
+func regC03(add addFn, p pFn) {
+	stubs := []string{"asn1havoc", "apreqstub", "hoststub"}
+	apis := []string{"AcceptSecContext", "SPNEGOToken.Verify", "NegTokenInit.Verify", "NegTokenResp.Verify", "KRB5Token.Verify"}
+	for api, n := range apis {
+		add(&Instance{Property: "C03", Name: "token-verify-" + n, Entry: "spnego.VH_C03_TokenVerify", Params: p("api", api, "maxseq", 2, "maxstr", 1), Stubs: stubs, Replay: "stubbed",
+			Reach: []string{"verified", "not-verified"}, Bound: "any decoded token: Init/Resp flags, mech lists of 0..2 OIDs from {KRB5, MS-KRB5, SPNEGO, arbitrary short}, mech token absent/AP-REQ/AP-REP/KRB-ERROR/unknown id; the AP-REQ verdict is the stub's"})
+	}
+	shapes := []string{"no-header", "any-3-bytes", "negotiate-any-4-chars", "decodable-token"}
+	for _, sm := range []int{0, 1} {
+		for sh, sn := range shapes {
+			ms := 2
+			if sh == 2 {
+				ms = 0 // this instance is about the base64 layer: decoded tokens are the degenerate ones
+			}
+			add(&Instance{Property: "C03", Name: "handler-1req-" + sn + "-sm" + itoa(sm), Entry: "spnego.VH_C03_Handler", Params: p("requests", 1, "sm", sm, "shape", sh, "hlen", 3, "b64len", 4, "maxseq", ms, "maxstr", 1), Stubs: stubs, Replay: "stubbed",
+				Reach: map[bool][]string{true: {"served", "refused"}, false: {"refused"}}[sh == 3], Bound: "one request; Authorization: " + sn + "; decoded token content arbitrary (lists 0.." + itoa(ms) + ")"})
+		}
+	}
+	add(&Instance{Property: "C03", Name: "handler-2req-sm1", Entry: "spnego.VH_C03_Handler", Params: p("requests", 2, "sm", 1, "shape", -2, "fixoid", 1, "seqlens", 4, "maxstr", 1), Stubs: stubs, Replay: "stubbed", TimeoutS: 900,
+		Reach: []string{"served", "refused", "served-under-session", "session-created"}, Bound: "two requests with a session manager (cookie present or not, store failing or not); header absent or a decodable token whose lists have 2 elements and OIDs are KRB5 (token shapes are the 1-request instances' subject)"})
+	add(&Instance{Property: "C03", Name: "handler-3req-sm1", Entry: "spnego.VH_C03_Handler", Params: p("requests", 3, "sm", 1, "shape", -2, "fixoid", 1, "seqlens", 4, "maxstr", 1), Stubs: stubs, Replay: "stubbed", Tier: "thorough", TimeoutS: 3000,
+		Reach: []string{"served", "refused", "served-under-session", "session-created"}, Bound: "three requests with a session manager"})
 }
 
 func regC19(add addFn, p pFn) {
